@@ -499,22 +499,25 @@ def runOp (env : Env MemDict Lay) (e : Editor MemDict Lay) (fn : String) (a : Li
   | "clear", [] => .ok (e.clear env, "ok")
   | "ack", [] => .ok (e.ack, "ok")
   | "clearsyl", [] => .ok (e.clearSyllableEditor env, "ok")
-  | "setopts", toks => let (o, _) := optionsP.run toks; .ok (e.setOptions env o, "ok")
+  | "setopts", toks => let (o, _) := optionsP.run toks; (Editor.revalidate env (e.setOptions env o)).map fun e' => (e', "ok")
   | "setlayout", [_, code, empty, ks] =>
     let st : LayState := { code := natOf code, empty := empty == "1", keySeq := if ks == "-" then none else some ks }
-    .ok (e.setLayout env { e.shared.syl with st := st, gen := e.shared.syl.gen + 1 }, "ok")
+    (Editor.revalidate env (e.setLayout env { e.shared.syl with st := st, gen := e.shared.syl.gen + 1 })).map fun e' => (e', "ok")
   | "setengine", [k] =>
     let k := engineOf (natOf k)
     let e := { e with shared := { e.shared with engine := k } }
     let ls : Strategy := if k == .fuzzy then .fuzzyPartialPrefix else .standard
     let o := { e.shared.options with conversionEngine := k, lookupStrategy := ls }
-    .ok (e.setOptions env o, "ok")
+    (Editor.revalidate env (e.setOptions env o)).map fun e' => (e', "ok")
   | "learn", toks =>
     let ((key, phrase), _) := (do let k ← listOf num; let p ← textTok; return (k, p) : P _).run toks
-    (Shared.learnPhrase env e.shared key phrase).map fun (sh, okk) => ({ e with shared := sh }, okS okk)
+    match Shared.learnPhrase env e.shared key phrase with
+    | .ok (sh, okk) => (Editor.revalidate env { e with shared := sh }).map fun e' => (e', okS okk)
+    | .panic q => .panic q
+    | .outOfFuel => .outOfFuel
   | "unlearn", toks =>
     let ((key, phrase), _) := (do let k ← listOf num; let p ← textTok; return (k, p) : P _).run toks
-    .ok ({ e with shared := Shared.unlearnPhrase env e.shared key phrase }, "ok")
+    (Editor.revalidate env { e with shared := Shared.unlearnPhrase env e.shared key phrase }).map fun e' => (e', "ok")
   | "jump", [j] => (e.jump env (natOf j)).map fun (e', okk) => (e', okS okk)
   | "cands", [] =>
     -- C07: the candidate getters (pure): `tp=<total_page>,pn=<page>,all=<hex>/…,pag=<hex>/…`
